@@ -8,6 +8,7 @@ CONSTANTS
   K = 1
   Shapes = {"nsc"}
   Rich = FALSE
+  SparseSet = {FALSE, TRUE}
 INVARIANT DelimPrefix
 INVARIANT DelimDone
 INVARIANT WriteRead
